@@ -37,7 +37,9 @@ NoUnlabeled(ev) ==
                                     ev.cons_a[t][j] \in 1..Len(ev.y) /\ ev.y[ev.cons_a[t][j]] >= 0
 
 Step(ev) ==
-  IF ev.exc # "" THEN R({"C08.fit_returns"}, {"C08.fit_returns"})
+  \* SDML may legitimately fail with RuntimeError when its solver cannot produce an SPD matrix (C13): nothing to compare
+  IF ev.exc = "RuntimeError" /\ ev.cls = "SDML_Supervised" THEN R({}, {"X08.sdml_solver_failed"})
+  ELSE IF ev.exc # "" THEN R({"C08.fit_returns"}, {"C08.fit_returns"})
   ELSE R(G("C08.generator_of_class", SV!Generator[ev.cls] = ev.gen /\ SV!Base[ev.cls] = ev.base)
          \cup G("C08.same_constraints_as_helper_with_same_seed", ev.cons_a = ev.cons_b)
          \cup G("C08.constraints_respect_labels", Sound(ev))
